@@ -77,10 +77,28 @@ func (g *G) mappable(a *m.Attr) (path, query, header, cookie bool) {
 		cookie = false
 	}
 	// cookie values are limited to cookie-octets by HTTP (net/http drops other bytes)
-	if f := MergedValidation(g.d, a).Format; f != "" && cookie {
+	if f := MergedValidation(g.d, a).Format; f != "" {
 		for _, v := range Formats[f].Valid {
 			if !cookieSafe(v) {
 				cookie = false
+			}
+			if path && strings.Contains(v, "/") && g.avoid("C02-client-path-slash-unescaped") {
+				path = false
+			}
+		}
+	}
+	if pt := MergedValidation(g.d, a).Pattern; pt != "" && path {
+		for _, pi := range Patterns {
+			if pi.Pattern == pt {
+				ok := false
+				for _, v := range pi.Match {
+					if !strings.Contains(v, "/") && v != "" {
+						ok = true
+					}
+				}
+				if !ok {
+					path = false
+				}
 			}
 		}
 	}
